@@ -511,4 +511,53 @@ theorem block_exec_all (d : Dfsr) (st : Store) (t : Nat) (bs : List Nat) (k n a 
       exact hex
     · rw [hfs', hrl]; simp
 
+
+/-! ### assembling a single-record log pass -/
+
+theorem setRows_getElem (M : List (List (Option Nat))) (i : Nat) (rows : List (List (Option Nat))) (q : Nat)
+    (h : i + rows.length ≤ M.length) :
+    (setRows M i rows)[q]? = if i ≤ q ∧ q < i + rows.length then rows[q - i]? else M[q]? := by
+  induction rows generalizing M i with
+  | nil => simp [setRows]
+  | cons x xs ih =>
+    simp only [setRows, List.length_cons] at h ⊢
+    rw [ih (M.set i x) (i + 1) (by simp; omega)]
+    by_cases hq : q = i
+    · subst hq
+      have h1 : ¬ (q + 1 ≤ q ∧ q < q + 1 + xs.length) := by omega
+      have h2 : q ≤ q ∧ q < q + (xs.length + 1) := by omega
+      rw [if_neg h1, if_pos h2]
+      simp [List.getElem?_set]; omega
+    · by_cases hin : i + 1 ≤ q ∧ q < i + 1 + xs.length
+      · have h2 : i ≤ q ∧ q < i + (xs.length + 1) := by omega
+        rw [if_pos hin, if_pos h2]
+        have : q - i = (q - (i + 1)) + 1 := by omega
+        rw [this]; rfl
+      · have h2 : ¬ (i ≤ q ∧ q < i + (xs.length + 1)) := by omega
+        rw [if_neg hin, if_neg h2, List.getElem?_set]
+        simp [Ne.symm hq]
+
+theorem setRows_full (M rows : List (List (Option Nat))) (h : rows.length = M.length) : setRows M 0 rows = rows := by
+  apply List.ext_getElem?
+  intro q
+  rw [setRows_getElem M 0 rows q (by omega)]
+  by_cases hq : q < rows.length
+  · simp [hq]
+  · simp [hq]; omega
+
+/-- all frames of a single-record table are found in that record -/
+theorem retFrameSetMapAux_single (t : Int) (n : Nat) (x : Int) (frames : List Nat) (hf : ∀ f ∈ frames, f < n) :
+    ∀ pre, retFrameSetMapAux [Item01.mk1 t n x] frames [(t, pre)] = .ok [(t, pre ++ frames)] := by
+  induction frames with
+  | nil => intro pre; simp [retFrameSetMapAux]
+  | cons f fs ih =>
+    intro pre
+    have hfn := hf f (List.mem_cons_self ..)
+    have hl : rle01Tell [Item01.mk1 t n x] f = .ok (t, f) := by
+      rw [rle01Tell_locate]
+      simp [expand, mk1_expand, locate, hfn]
+    simp only [retFrameSetMapAux, hl, mapAppend, if_true]
+    rw [ih (fun f' h => hf f' (List.mem_cons_of_mem _ h))]
+    simp
+
 end TD.C06
